@@ -6,10 +6,11 @@ PROP = {
                   "emit::level::{MinLevelFilter::matches, treat_unleveled_as, Level::from_str, parse, Level as FromValue}"],
     "bounds": "level property absent / typed (4 levels) / text of <= 4 bytes over {i,I,n,f,o,d,b,g,e,E,r,w,W,a,1,blank,(,0x01} / non-level value; "
               "minimum and default any level; numeric MinLevelFilter<u8> over all u8; "
-              "MinLevelPathMap: quick = 7 families of ONE concrete registered path (symbolic presence, any level) + optional default of any level + concrete event module "
-              "(exact, descendant, prefix-sharing sibling, sibling child, ancestor only, registered name after an unregistered segment, inner mismatch), any typed event level; "
-              "thorough = 5 families of TWO concrete registrations in symbolic order (nested, sibling, repeated, unrelated suffix, root mismatch)",
-    "outside": "level texts longer than 4 bytes (6 in the C15 parser harness); path maps with more than 2 registrations or paths outside the written families (symbolic paths: str::split's TwoWaySearcher does not finish)",
+              "MinLevelPathMap: 6 quick + 2 thorough families of ONE registered ONE-segment path with any level, a default of any level in some families, a concrete "
+              "event module (exact, descendant, prefix-sharing sibling, sibling child, registered name after an unregistered segment, root mismatch, unrelated, deep "
+              "descendant) and any typed event level; two-segment registrations and two registrations (nested rules, repeated registration, registration order) "
+              "exist as harnesses but blow the SAT instance past 26 GB: NOT decided",
+    "outside": "level texts longer than 4 bytes (6 in the C15 parser harness); nested rules / repeated registrations / registration order in the path map (do not fit), paths outside the written families (symbolic paths: str::split's TwoWaySearcher does not finish)",
     "stubs": ["Value::parse -> assert-unreachable in the path-map harnesses (the event level there is a typed Level: the text fallback of Level::from_value is dead; the lenient text grammar is decided by c17_q_min_level_filter)", "Path::segments: std str::split(\"::\") -> hand-written scanner with the same semantics (stubs/split_scanner.toml; std trusted, TwoWaySearcher does not finish under CBMC)"],
     "assumptions": ["text is valid UTF-8 (ASCII alphabet)"],
     "timeout": {"quick": 700, "thorough": 3600},
